@@ -179,3 +179,27 @@ m("explicit-skip-ineligible", ["C06"], "wallet/createtx.go",
 				}""")
 m("maturity-off-by-one", ["C06"], "wallet/createtx.go",
   "			target := int32(w.chainParams.CoinbaseMaturity)\n", "			target := int32(w.chainParams.CoinbaseMaturity) - 1\n")
+
+# ---------------- wallet: broadcast (C20) ----------------
+m("reject-keeps-tx", ["C20"], "wallet/wallet.go",
+  """	// If the transaction was rejected for whatever other reason, then
+	// we'll remove it from the transaction store, as otherwise, we'll
+	// attempt to continually re-broadcast it, and the UTXO state of the
+	// wallet won't be accurate.
+	dbErr := walletdb.Update(w.db, func(dbTx walletdb.ReadWriteTx) error {
+		txmgrNs := dbTx.ReadWriteBucket(wtxmgrNamespaceKey)
+		txRec, err := wtxmgr.NewTxRecordFromMsgTx(tx, time.Now())
+		if err != nil {
+			return err
+		}
+		return w.TxStore.RemoveUnminedTx(txmgrNs, txRec)
+	})""",
+  """	dbErr := error(nil)""")
+m("in-mempool-treated-as-rejection", ["C20"], "wallet/wallet.go",
+  "	case errors.Is(rpcErr, chain.ErrTxAlreadyInMempool):\n		log.Infof(\"%v: tx already in mempool\", txid)\n		return &txid, nil\n", "")
+m("no-resend-after-rescan", ["C20"], "wallet/rescan.go",
+  "			go w.resendUnminedTxs()\n", "")
+m("subscription-failure-keeps-tx", ["C20"], "wallet/wallet.go",
+  "		if !alreadyKnown {\n			dbErr := walletdb.Update", "		if !alreadyKnown && false {\n			dbErr := walletdb.Update")
+m("resend-children-first", ["C20", "C14"], "wtxmgr/unconfirmed.go",
+  "	return DependencySort(txSet), nil", "	sorted := DependencySort(txSet)\n	for i, j := 0, len(sorted)-1; i < j; i, j = i+1, j-1 {\n		sorted[i], sorted[j] = sorted[j], sorted[i]\n	}\n	return sorted, nil")
